@@ -189,6 +189,11 @@ def obligations(tier, seed):
                         budget=600 if tier == "quick" else 3000))
     obs.append(dict(oid="K/literal-n3-text-long/len<=%d" % (n - 1), family="k-ttl-roundtrip-long", desc={"tail": "@en"}, sig=[("s", "s")],
                     pre=["len(s) <= %d" % (n - 1)], budget=big))
+    # the same text through the SPARQL grammar's string terminals (their parse actions applied to the whole token)
+    obs.append(dict(oid="K/literal-n3-text-sparql/len<=%d" % n, family="k-sparql-string", desc={}, sig=[("s", "s")],
+                    pre=["len(s) <= %d" % n], budget=big))
+    obs.append(dict(oid="K/literal-n3-text-sparql-long/len<=%d" % (n - 1), family="k-sparql-string", desc={"long": True}, sig=[("s", "s")],
+                    pre=["len(s) <= %d" % (n - 1)], budget=big))
     return obs
 
 
@@ -199,6 +204,8 @@ def bounds(tier):
                                "validity gate within the N-Triples token patterns" % len(r_obligations()),
             "k-ttl-roundtrip": "Literal._quote_encode -> SinkParser.strconst for every lexical form of length <= %d, bare and followed by "
                                "@lang / ^^<iri>; long-quoting branch for newline + length <= %d" % (n, n - 1),
+            "k-sparql-string": "Literal._quote_encode -> the parse action of sparql.parser.STRING_LITERAL2 / STRING_LITERAL_LONG2 (delimiter removal and "
+                               "escape decoding; the terminal's own regex is not part of it) for every lexical form of length <= %d" % n,
             "k-literal-eq": "Literal.__eq__/__ne__: reflexive, symmetric, transitive, = (lexical, datatype, lower-cased language) for symbolic "
                             "language tags of length <= 2 and symbolic datatype identities; lexical forms concrete",
             "shape-symbolic": "the finite kind-ordering tables (_ORDERING, _val) — enumeration, not a solver claim",
